@@ -339,6 +339,13 @@ retry:
 
 			verifYield(VerifPtInsLink)
 			if buf.preds[i].dcasNext(i, next, x, false, false) {
+				// A concurrent delete may have marked x and finished its
+				// unlink pass before this link was made; nobody else would
+				// take x off this level then. Unlink it here and stop.
+				if _, deleted := x.getNext(i); deleted {
+					s.findPath(itm, insCmp, buf, sts)
+					goto finished
+				}
 				break fixThisLevel
 			}
 
